@@ -51,7 +51,10 @@ def compare(base, other, rank=0):
     """first difference between two case texts (None if equivalent).
     The frequency table returned by TwoParticleGF::compute is reduced to rank 0 of the communicator: on other ranks
     the returned vector is not meaningful (by design of the interface) and is not compared."""
-    skip = ("o chitab",) if rank != 0 else ()
+    # `tpc list` prints the internal Status of every stored element: for identically vanishing components (no parts) it is
+    # only advanced on the ranks of the colour that "computed" them; they are evaluable (to 0) everywhere, which is what the
+    # property asks for and what `tpc evalall` / `tpc get` observe -- the status column is not compared across ranks
+    skip = ("o chitab", "o tpclist") if rank != 0 else ("o tpclist",)
     A = [l for l in base.splitlines() if l.startswith(("o ", "c ")) and not l.startswith(skip or ("\0",))]
     B = [l for l in other.splitlines() if l.startswith(("o ", "c ")) and not l.startswith(skip or ("\0",))]
     if len(A) != len(B):
@@ -75,8 +78,8 @@ def compare(base, other, rank=0):
     return None
 
 
-def script(r, tiny=False, ncomp=None, split=None):
-    m = pipeline.gen_model(r, max_modes=(r.choice([1, 2, 2]) if tiny else r.choice([2, 3, 4])))
+def script(r, tiny=False, ncomp=None, split=None, alldefault=False):
+    m = pipeline.gen_model(r, max_modes=(r.choice([1, 2, 2]) if tiny else (r.choice([2, 2, 3]) if alldefault else r.choice([2, 3, 4]))))
     M = m.modes()
     s = pipeline.core_script(m, order=0, symm=r.choice(["default", "default", "ignore"]))
     s += ["dm %s" % pipeline.hx(r.choice([1.0, 4.0])), "fops"]
@@ -90,11 +93,25 @@ def script(r, tiny=False, ncomp=None, split=None):
     cand = [(i, j) for i in range(M) for j in range(i, M)]
     r.shuffle(cand)
     qs = [[i, j, j, i] for (i, j) in cand[:ncomp]]
-    s += ["tpc new", "tpc prepareall %d %s" % (len(qs), " ".join("%d %d %d %d" % tuple(q) for q in qs)),
+    if alldefault:
+        qs = []         # `prepareAll()` without arguments: every initial index combination, vanishing ones included
+    s += ["tpc new", ("tpc prepareall %d %s" % (len(qs), " ".join("%d %d %d %d" % tuple(q) for q in qs))).strip(),
           "tpc computeall %d" % (r.below(2) if split is None else split), "tpc list", "tpc evalall 0 0 0"]
-    for q in qs:
+    for q in (qs or [[i, j, j, i] for (i, j) in cand[:3]]):
         s.append("tpc get %d %d %d %d 0 1 0" % tuple(q))
     return s
+
+
+def fixed_scripts():
+    """minimised regression inputs that run first on every check"""
+    L, v = pipeline.lab, pipeline.val
+    # Hubbard atom in a field, default prepareAll() (all 16 quadruples, most of them vanishing), split computation
+    s = ["site %s 1 2" % L("A"), "preset coulombS %s %s %s" % (L("A"), v(1.0), v(-0.3)), "preset magnetization %s %s" % (L("A"), v(0.2)),
+         "dumplattice", "index 0", "ham", "symm default", "states", "hprepare", "hcompute", "dm %s" % pipeline.hx(10.0), "fops",
+         "gf 0 0 2 0 2 0 0", "chi 0 1 1 0 0 2 0 1 0 1 -1 1",
+         "tpc new", "tpc prepareall 0", "tpc computeall 1", "tpc list", "tpc evalall 0 1 0"]
+    s += ["tpc get %d %d %d %d 0 1 0" % (a, b, c, d) for a in range(2) for b in range(2) for c in range(2) for d in range(2)]
+    return [s]
 
 
 def correspondence(ctx):
@@ -103,12 +120,16 @@ def correspondence(ctx):
     exe = pmlib.build_harness("pipe")
     nscripts = 24 if thorough else 5
     configs = [(2, 1), (3, 4), (4, 1)] if not thorough else [(2, 1), (2, 4), (3, 1), (3, 4), (4, 2), (5, 1), (7, 2), (16, 1)]
-    for k in range(nscripts):
+    fixed = fixed_scripts()
+    for k in range(-len(fixed), nscripts):
+        if k < 0:
+            s, tiny = fixed[k + len(fixed)], False
         # every fifth script is a tiny model run on more ranks than it has parts / blocks (idle ranks in every step)
-        tiny = k % 5 == 1
-        # the first scripts fix the shapes that matter for the colour split: more components than ranks, fewer, equal
-        forced = {0: (3, 1), 2: (2, 1), 3: (3, 0)}.get(k % 5)
-        s = script(r, tiny, *(forced or (None, None)))
+        if k >= 0:
+            tiny = k % 5 == 1
+            # the first scripts fix the shapes that matter for the colour split: more components than ranks, fewer, equal
+            forced = {0: (3, 1), 2: (2, 1), 3: (3, 0), 4: (None, 1)}.get(k % 5)
+            s = script(r, tiny, *(forced or (None, None)), alldefault=(k % 5 == 4))
         base = pipeline.run_case(exe, s, "real", numeric=False, timeout=300)
         ctx.evaluations += 1
         if base.aborted():
